@@ -60,7 +60,9 @@ class C16(PropBase):
                 q = mach.g_eval()
                 if q and all(isinstance(s, str) for s in q["loc"]) and len(targets) < cfg["n_targets"]:
                     targets.append(q)
-            steps.append({"op": "plan", "targets": targets, "step_size": cfg["step_size"]})
+            prng = ctx.rng("env")
+            env = {"recalc": prng.random() < 0.25, "trace": prng.choice([0, 0, 0, 3, 50])}
+            steps.append({"op": "plan", "targets": targets, "step_size": cfg["step_size"], "env": env})
         else:
             steps = ctx.doc["steps"]
         ctx.steps = steps
@@ -139,6 +141,58 @@ class C16(PropBase):
             direct[el] = norm(r[1])
         needed = {e for e in ev2.memo if e not in ev2.inputs}
         probe.reset()
+        # session settings that must not matter: the recalculation option, and a stack trace of the user's own (bounded, with
+        # records of an earlier evaluation in it), which has to be still running, with those records, afterwards
+        env = op.get("env") or {}
+        if env.get("recalc"):
+            mx.set_recalc(True)
+        if env.get("trace"):
+            import warnings
+            with warnings.catch_warnings():
+                warnings.simplefilter("ignore")
+                mx.start_stacktrace(maxlen=env["trace"])
+            # records of an earlier evaluation (of a scratch model, so that the model under test is left alone)
+            tm = mx.new_model("ZZtrace")
+            tc = tm.new_space("S").new_cells("f", formula="lambda x: 0 if x <= 0 else f(x - 1) + 1")
+            tc(4)
+            tm.close()
+        try:
+            self._plan_body(ctx, mach, op, m, nodes, targets, before, held, direct, needed, ev, ev2)
+        finally:
+            mx.set_recalc(False)
+            if env.get("trace"):
+                ok = True
+                try:
+                    mx.get_stacktrace(summarize=False)
+                except Exception:
+                    ok = False
+                import warnings
+                with warnings.catch_warnings():
+                    warnings.simplefilter("ignore")
+                    try:
+                        mx.stop_stacktrace()
+                    except Exception:
+                        pass
+                if not ok:
+                    raise Violation("C16/user-stack-trace-switched-off", {"step_size": op["step_size"]})
+                self.ctx_count(ctx, "plans_under_a_user_stack_trace")
+
+    @staticmethod
+    def ctx_count(ctx, key):
+        ctx.count(key, 1, "reach")
+
+    @staticmethod
+    def _restore_after_trace(mach, before, held):
+        """The evaluation that filled the user's trace may have left values: back to the held map the plan starts from."""
+        now = held()
+        for el in now:
+            if el not in before:
+                try:
+                    mach.world.space(el[0]).cells[el[1]].clear_at(*el[2])
+                except Exception:
+                    pass
+
+    def _plan_body(self, ctx, mach, op, m, nodes, targets, before, held, direct, needed, ev, ev2):
         try:
             actions = m.generate_actions(nodes, step_size=op["step_size"])
         except Exception as e:
